@@ -9,7 +9,9 @@ Driver.Sevm — runs the Model.Sevm exploration core on a program (one reply per
   eval <codehex> <nargs> <loop> <depth> <fuel> <oracle> <a0,a1,…> <caller> <origin> <value>     (hex values)
    -> sat=<kind@pc:datahex:storage,…|->   the end states whose path the inputs satisfy, with their data evaluated and
       their non-zero storage `<addr>.s<slot>=<value>;` / transient storage `<addr>.t<slot>=<value>;` (hex, by account
-      and slot), followed by the world's log `L<addr>[<topic>,…]<datahex>;`, oldest first
+      and slot), followed by the world's log `L<addr>[<topic>,…]<datahex>;`, oldest first, and the non-zero balances
+      `B<addr>=<value>;` of the accounts 0x1000, 0x2000, 0x3000, 0x4000, 5; an optional last argument
+      `<addr>:<balance>,…` gives the initial balances (`balance_0`; default 0)
   code <addrhex> <codehex>  -> ok     registers the code of another account (message-call targets) for what follows
   nocode                    -> ok     forgets them
   (the program under test runs at address 0x1000; calls follow Model.SevmCalls)
@@ -91,14 +93,25 @@ def collapseBytes (x : T) : T :=
     | none => x
   | _ => x
 
+/-- z3's normal form of the unsigned comparisons: everything in terms of `ULE` (`ULT(a, b)` is `Not(ULE(b, a))`,
+    `UGE(a, b)` is `ULE(b, a)`), so that a condition and the negation of its complement are the same term -/
+def canonCmp : B → B
+  | .cmp .ult a b => .not (.cmp .ule b a)
+  | .cmp .uge a b => .cmp .ule b a
+  | .cmp .ugt a b => .not (.cmp .ule a b)
+  | .not (.cmp .ult a b) => .cmp .ule b a
+  | .not (.cmp .uge a b) => .not (.cmp .ule b a)
+  | .not (.cmp .ugt a b) => .cmp .ule a b
+  | c => c
+
 /-- the driver's stand-in for z3's `simplify`: constant folding of closed terms plus elimination of a double negation
     at the top (`simplify(Not(Not(c))) = c`, which `jumpi`'s `cond_false = simplify(Not(cond_true))` relies on when the
     same condition is met again on a path), and the re-assembly of a word from its 32 bytes -/
 def drvSimp : Simp where
   t := fun t => collapseBytes (foldSimp.t t)
   b := fun b =>
-    match foldSimp.b b with
-    | .not (.not c) => c
+    match canonCmp (foldSimp.b b) with
+    | .not (.not c) => canonCmp c
     | c => c
 
 def haltName : Evm.Halt → String
@@ -125,23 +138,32 @@ def handle (codes : List (Nat × List Nat)) (line : String) : String :=
     | some code, some nargs, some loop, some depth, some fuel =>
       let o : Oracle := fun _ _ => if orc.startsWith "sat" then .sat else .unknown
       let static := orc.endsWith "+static"
-      let res := runC drvSimp o { loop, depth } (mkEnv nargs static) ((MAIN, code) :: codes) MAIN fuel
+      let res := runC drvSimp o { loop, depth, balances := true } (mkEnv nargs static) ((MAIN, code) :: codes) MAIN fuel
       let ends := (res.ends.map fun e => outName e.e).toArray.qsort (· < ·) |>.toList
       let e := if ends.isEmpty then "-" else ",".intercalate ends
       s!"ends={e} bounded={res.boundedLoops.length} depthcut={if res.depthCut then 1 else 0} fuelout={if res.outOfFuel then 1 else 0}"
     | _, _, _, _, _ => "bad-op"
-  | ["eval", code, nargs, loop, depth, fuel, orc, argv, caller, origin, value] =>
+  | "eval" :: code :: nargs :: loop :: depth :: fuel :: orc :: argv :: caller :: origin :: value :: balArg =>
     -- the end states whose path the given inputs satisfy, each with its return / revert data evaluated
+    let balPairs : List (Nat × Nat) := match balArg with
+      | [b] => (b.splitOn ",").filterMap fun kv =>
+          match kv.splitOn ":" with
+          | [a, v] => (hexVal? a).bind fun a => (hexVal? v).map fun v => (a, v)
+          | _ => none
+      | _ => []
     match hexBytes? code, nargs.toNat?, loop.toNat?, depth.toNat?, fuel.toNat?,
           (argv.splitOn ",").mapM hexVal?, hexVal? caller, hexVal? origin, hexVal? value with
     | some code, some nargs, some loop, some depth, some fuel, some args, some caller, some origin, some value =>
       let o : Oracle := fun _ _ => if orc.startsWith "sat" then .sat else .unknown
       let static := orc.endsWith "+static"
-      let res := runC drvSimp o { loop, depth } (mkEnv nargs static) ((MAIN, code) :: codes) MAIN fuel
+      let res := runC drvSimp o { loop, depth, balances := true } (mkEnv nargs static) ((MAIN, code) :: codes) MAIN fuel
       let bvVal (x : String) (_ : Nat) : Nat :=
         if x = "msg_sender" then caller else if x = "tx_origin" then origin else if x = "msg_value" then value
         else if x.startsWith "a" then args.getD ((x.drop 1).toNat?.getD 0) 0 else 0
-      let I := Interp.std bvVal (fun _ => false) (fun _ _ _ _ => 0) (fun _ _ _ => 0)
+      -- the initial balance array `balance_0` (absent accounts: 0); `balance_00` is the empty array
+      let uf1Val (name : String) (_ : Nat) (a : Nat) : Nat :=
+        if name = "balance_0" then ((balPairs.find? fun kv => kv.1 == a).map (·.2)).getD 0 else 0
+      let I := Interp.std bvVal (fun _ => false) (fun _ _ _ _ => 0) uf1Val
       let hex2 (n : Nat) : String :=
         let d (k : Nat) : Char := if k < 10 then Char.ofNat (48 + k) else Char.ofNat (87 + k)
         String.ofList [d (n / 16 % 16), d (n % 16)]
@@ -162,8 +184,16 @@ def handle (codes : List (Nat × List Nat)) (line : String) : String :=
         String.join (lg.map fun l =>
           s!"L{hexN (l.addr.eval I)}[{",".intercalate (l.topics.map fun t => hexN (t.denote I))}]" ++
             String.join (l.data.map fun b => hex2 (b.eval I)) ++ ";")
+      -- the balances of the accounts of the scenario, `B<addr>=<value>;` (zero values dropped)
+      let balAt (chain : List (T × T)) (a : Nat) : Nat :=
+        match chain.find? fun kv => kv.1.eval I == a with
+        | some kv => kv.2.eval I
+        | none => uf1Val "balance_0" 256 a
+      let balStr (chain : List (T × T)) : String :=
+        String.join (([MAIN, 0x2000, 0x3000, 0x4000, 5] : List Nat).filterMap fun (a : Nat) =>
+          if balAt chain a == 0 then none else some s!"B{hexN a}={hexN (balAt chain a)};")
       let names := (sat.map fun e =>
-        s!"{outName e.e}:{String.join (e.e.data.map fun b => hex2 (b.eval I))}:{allSto e.stores}{logStr e.logs}").toArray.qsort (· < ·) |>.toList
+        s!"{outName e.e}:{String.join (e.e.data.map fun b => hex2 (b.eval I))}:{allSto e.stores}{logStr e.logs}{balStr e.bal}").toArray.qsort (· < ·) |>.toList
       s!"sat={if names.isEmpty then "-" else ",".intercalate names}"
     | _, _, _, _, _, _, _, _, _ => "bad-op"
   | ["steps", code, nargs, loop, fuel, orc] =>
@@ -174,9 +204,9 @@ def handle (codes : List (Nat × List Nat)) (line : String) : String :=
       let o : Oracle := fun _ _ => if orc.startsWith "sat" then .sat else .unknown
       let static := orc.endsWith "+static"
       let cs := (MAIN, code) :: codes
-      let res0 := runC drvSimp o { loop, depth := 0 } (mkEnv nargs static) cs MAIN fuel
+      let res0 := runC drvSimp o { loop, depth := 0, balances := true } (mkEnv nargs static) cs MAIN fuel
       if res0.outOfFuel then "steps=0" else
-      let cut (d : Nat) : Bool := (runC drvSimp o { loop, depth := d } (mkEnv nargs static) cs MAIN fuel).depthCut
+      let cut (d : Nat) : Bool := (runC drvSimp o { loop, depth := d, balances := true } (mkEnv nargs static) cs MAIN fuel).depthCut
       let rec up (d : Nat) : Nat → Nat
         | 0 => d
         | k + 1 => if cut d then up (2 * d) k else d
